@@ -188,6 +188,13 @@ func (f *file) Close() error {
 	return nil
 }
 
+// currentSize returns the size of the file's contents as they are now.
+// Loading the data first makes Size follow the live blob instead of the size recorded when the file was opened.
+func (f *file) currentSize() int64 {
+	_, _ = f.Data()
+	return f.Size()
+}
+
 func (f *file) updateModTime() {
 	f.modTimeOverride = time.Now()
 }
@@ -216,10 +223,10 @@ func (f *file) ReadBlobAt(length int, off int64) (b blob.Blob, n int, err error)
 	if err := f.closedErr("readat"); err != nil {
 		return nil, 0, err
 	}
-	if off >= int64(f.Size()) {
+	max := f.currentSize()
+	if off >= max {
 		return nil, 0, io.EOF
 	}
-	max := int64(f.Size())
 	end := off + int64(length)
 	if end > max {
 		end = max
@@ -250,7 +257,7 @@ func (f *file) Seek(offset int64, whence int) (int64, error) {
 	case io.SeekCurrent:
 		newOffset += offset
 	case io.SeekEnd:
-		newOffset = int64(f.Size()) + offset
+		newOffset = f.currentSize() + offset
 	default:
 		return 0, &hackpadfs.PathError{Op: "seek", Path: f.path, Err: hackpadfs.ErrInvalid}
 	}
@@ -285,14 +292,14 @@ func (f *file) writeBlobAt(op string, p blob.Blob, off int64) (n int, err error)
 		return 0, err
 	}
 	if f.flag&hackpadfs.FlagAppend != 0 {
-		off = int64(f.Size())
+		off = f.currentSize()
 	}
 	if off < 0 {
 		return 0, &hackpadfs.PathError{Op: op, Path: f.path, Err: errors.New("negative offset")}
 	}
 
 	endIndex := off + int64(p.Len())
-	if int64(f.Size()) < endIndex {
+	if f.currentSize() < endIndex {
 		data, err := f.Data()
 		if err != nil {
 			return 0, &hackpadfs.PathError{Op: op, Path: f.path, Err: err}
@@ -331,7 +338,7 @@ func (f *file) Truncate(size int64) error {
 	if f.Mode().IsDir() {
 		return &hackpadfs.PathError{Op: "truncate", Path: f.path, Err: hackpadfs.ErrIsDir}
 	}
-	length := int64(f.Size())
+	length := f.currentSize()
 	switch {
 	case size < 0:
 		return &hackpadfs.PathError{Op: "truncate", Path: f.path, Err: hackpadfs.ErrInvalid}
